@@ -53,6 +53,7 @@ def run(c):
             c.need("%s x %s" % (kind, m))
     c.need("preflight")
     c.need("engine B responses")
+    configured_policy(c, rng)
     for ti in range(ntrees):
         t = treegen.generate(rng.fork("tree", ti), depth=1 + ti % 3, tag="c09-%d" % ti, root_index=(ti % 2 == 0))
         srv = None
@@ -97,6 +98,41 @@ def run(c):
             if srv:
                 srv.cleanup()
             t.cleanup()
+
+
+def configured_policy(c, rng):
+    """allow-all off, origins / methods / headers configured, credentials left unset (the documented default): the preflight
+    of a configured origin carries the configured grants"""
+    t = treegen.generate(rng.fork("tree", "cfg"), depth=1, tag="c09-cfg")
+    try:
+        f = sorted(k for k in t.files if len(t.files[k]) > 30 and " " not in k)[0]
+        for creds in (None, "true", "false"):
+            args = ["--cors-allow-all=false", "--cors-allow-origins=https://app.example,https://other.example", "--cors-allow-methods=GET,PUT,DELETE", "--cors-allow-headers=content-type,x-custom", "--cors-max-age=600"]
+            if creds:
+                args.append("--cors-allow-credentials=" + creds)
+            srv = server.Server(t.root, threads=2, args=args)
+            try:
+                if not srv.started:
+                    c.inconc("server with a configured policy did not start")
+                    continue
+                for path in (f, "/"):
+                    raw = build("OPTIONS", path, HEADER_SETS["preflight"])
+                    data, end = srv.request(raw)
+                    r = httpstrict.parse(data, head_request=True)
+                    c.ev()
+                    c.cls("configured-policy", creds, path == "/")
+                    rp = {"args": args, "path": path, "response_head": data[:500].decode("latin-1")}
+                    if r.status not in (200, 204):
+                        c.violation("C09:OPTIONS:configured-policy:status", "OPTIONS %s -> %s under a configured policy" % (path, r.status), rp)
+                        continue
+                    am = set(x.strip().upper() for x in (r.get("access-control-allow-methods") or "").split(",") if x.strip())
+                    ah = set(x.strip().lower() for x in (r.get("access-control-allow-headers") or "").split(",") if x.strip())
+                    if r.get("access-control-allow-origin") != "https://app.example" or am != {"GET", "PUT", "DELETE"} or ah != {"content-type", "x-custom"} or (r.get("access-control-max-age") or "").strip() != "600":
+                        c.violation("C09:OPTIONS:configured-policy:grants:credentials=%s" % (creds or "unset"), "preflight of a configured origin lacks the configured grants: origin %r methods %r headers %r max-age %r" % (r.get("access-control-allow-origin"), r.get("access-control-allow-methods"), r.get("access-control-allow-headers"), r.get("access-control-max-age")), rp)
+            finally:
+                srv.cleanup()
+    finally:
+        t.cleanup()
 
 
 def hdr_multiset(r):
